@@ -12,7 +12,7 @@ import numpy as np
 import pints
 
 from harness.bootstrap import load_chi
-from harness.core import Family
+from harness.core import Family, Rejected
 from harness import forms as FM
 from harness import gen_pop as GP
 from harness import toys
@@ -78,7 +78,7 @@ def _patch_filters():
 
 
 class FPCase(object):
-    def __init__(self, rng, idx, special_mode=None):
+    def __init__(self, rng, idx, special_mode=None, allow_fixed=True):
         self.n_out = int(rng.integers(1, 3))
         self.n_dim = self.n_out + 2
         self.fname = c12.CLASSES[idx % len(c12.CLASSES)]
@@ -145,7 +145,19 @@ class FPCase(object):
                 row = rng.uniform(-1, 1, size=self.h.n_cov)
                 self.cov = np.broadcast_to(row, (n_s, self.h.n_cov)).copy()
                 self.cov_arg = row
-        self.n_pop = self.h.n_top
+        # population parameters fixed through the reduced wrapper (half of
+        # the reduced cases): the posterior equals the unreduced one at
+        # the fixed values, with the fixed entries removed from the vector
+        self.fixed_pop = np.zeros(self.h.n_top, dtype=bool)
+        self.fixed_vals = np.zeros(self.h.n_top)
+        if self.reduced_top and rng.random() < 0.5 and self.h.n_top > 1 \
+                and allow_fixed:
+            _, z0, _ = GP.hierarchy_vector(rng, leaves, n_s)
+            k_fix = int(rng.integers(1, self.h.n_top))
+            fi = rng.permutation(self.h.n_top)[:k_fix]
+            self.fixed_pop[fi] = True
+            self.fixed_vals = np.real(z0[self.h.n_bottom:]).astype(float)
+        self.n_pop = int(np.sum(~self.fixed_pop))
         self.n_top = self.n_pop + (self.n_out if self.sigma_free else 0)
         self.prior_mu = rng.uniform(0.2, 0.6, size=self.n_top)
         self.prior_sd = rng.uniform(1.0, 2.0, size=self.n_top)
@@ -158,7 +170,14 @@ class FPCase(object):
         flt = c12.make_filter(self.fname, self.obs.copy(), self.k)
         pm = GP.build_chi(self.leaves, self.n_s, nest=self.nest)
         if self.reduced_top:
+            full_names = pm.get_parameter_names()
             pm = chi.ReducedPopulationModel(pm)
+            if np.any(self.fixed_pop):
+                if len(set(full_names)) != len(full_names):
+                    raise Rejected('duplicate population parameter names')
+                pm.fix_parameters({
+                    full_names[i]: float(self.fixed_vals[i])
+                    for i in np.where(self.fixed_pop)[0]})
         prior = pints.ComposedLogPrior(*[
             pints.GaussianLogPrior(float(m), float(s))
             for m, s in zip(self.prior_mu, self.prior_sd)])
@@ -175,6 +194,7 @@ class FPCase(object):
         h = self.h
         _, z, _ = GP.hierarchy_vector(rng, self.leaves, self.n_s)
         bottom, pop = z[:h.n_bottom], z[h.n_bottom:]
+        pop = pop[~self.fixed_pop]
         parts = [pop]
         if self.sigma_free:
             parts.append(rng.uniform(0.05, 0.3, size=self.n_out))
@@ -185,7 +205,8 @@ class FPCase(object):
     def split(self, x):
         h = self.h
         x = np.asarray(x)
-        pop = x[:self.n_pop]
+        pop = np.array(self.fixed_vals, dtype=complex)
+        pop[~self.fixed_pop] = x[:self.n_pop]
         sigma = x[self.n_pop:self.n_top] if self.sigma_free \
             else self.sigma_fixed_vals
         eb = self.n_top + h.n_bottom
@@ -221,6 +242,16 @@ class FPCase(object):
         return prior + s - np.sum(eps ** 2) / 2 \
             + c12.ref_value(self.fname, obs_sorted, y, self.k)
 
+    def _fixed_special(self):
+        """is a pooled / heterogeneous base parameter among the fixed ones"""
+        desc = self.h.describe()
+        for i in np.where(self.fixed_pop)[0]:
+            _, _, li, loc = desc[self.h.n_bottom + int(i)]
+            leaf = self.leaves[li]
+            if leaf.kind in 'PH' and loc < leaf.n_base(self.n_s):
+                return True
+        return False
+
     def signature(self):
         return (self.fname[:9], '+'.join(GP.leaf_code(l) for l in self.leaves),
                 self.sigma_free, self.log_scale, min(self.n_s, 4), self.n_out)
@@ -249,6 +280,8 @@ class FPCase(object):
                 'has_cov': any(bool(l.cov) for l in self.leaves),
                 'nested_wrappers': self.nest is not None,
                 'reduced_top': self.reduced_top,
+                'fixed_population_parameters': int(np.sum(self.fixed_pop)),
+                'fixed_special': self._fixed_special(),
                 'sigma_free': self.sigma_free, 'log_scale': self.log_scale}
 
 
@@ -313,7 +346,8 @@ def _names(ctx, case, x, rng):
         problems = []
         # ------- expected label
         if k < case.n_pop:
-            level, _, li, loc = desc[h.n_bottom + k]
+            level, _, li, loc = desc[
+                h.n_bottom + int(np.where(~case.fixed_pop)[0][k])]
             leaf = case.leaves[li]
             if ids[k] is not None:
                 problems.append('population entry with id %r' % (ids[k],))
